@@ -86,3 +86,11 @@ claim('C14', 'proof',
       '(spec.validate + alignment of every child, inputs unchanged, seeded determinism).',
       'Trusted: engine; sorted(key=...) is axiomatised as a rearrangement (membership + length), the order by key is not modelled.',
       'contract-based deductive verification (pyvc) + bounded stand-in for mutators/recombinators/composition', 'DESIGN.md 5/C14')
+claim('C20', 'proof',
+      'Escape-flow typing of the tree view: `object_key`, `summary`, `simple_value` and `tooltip` are executed symbolically with every piece of user data '
+      '(value, keys, names, parent) as opaque RAW values; every argument reaching an HTML sink (Html.element tag / inner_html / css classes / attributes, '
+      'Html + operand, Html.write) is shown to be a literal, a number, an identifier, escaped text or library-built Html on every path and every option '
+      'combination; `Html.escape` sends text through html.escape. Rendering writes nothing to the value. Well-formedness of the whole document, presence '
+      'of every key/leaf and the remaining render methods (`complex_value`, `content`, controls) are covered by the bounded tier with a strict tokenizer.',
+      'Trusted: engine; html.escape removes < > & " \' (stdlib); class names are identifiers; view options (title, colors, css classes) are not user data.',
+      'contract-based deductive verification (pyvc escape-flow/trace obligations) + bounded stand-in (strict HTML tokenizer)', 'DESIGN.md 5/C20')
